@@ -1433,3 +1433,91 @@ func (c *Ctx) readOnlyAlias(fi *load.FuncInfo, addr *ast.UnaryExpr) bool {
 	})
 	return ok
 }
+
+// lengthDiscipline: a slice that is created with a length (`x := make([]T, n)`, n not the constant 0) is filled by index; a
+// slice that is appended to starts empty (`make([]T, 0, n)`, `nil`, `[]T{}`). `make([]T, n)` followed by `x = append(x, …)`
+// leaves n zero values in front of the data — in a decoder or a restore that is n phantom records (an operator without a
+// name, a service with the empty password, a recipient 0). only, when not nil, restricts the rule to slices it accepts.
+// It returns the number of created slices it looked at.
+func (c *Ctx) lengthDiscipline(rule string, fi *load.FuncInfo, only func(t *types.Slice) bool, detail string) int {
+	if fi == nil || fi.Body() == nil {
+		return 0
+	}
+	info := fi.Info()
+	r := c.R
+	n := 0
+	ast.Inspect(fi.Body(), func(m ast.Node) bool {
+		var lhs []ast.Expr
+		var rhs []ast.Expr
+		switch x := m.(type) {
+		case *ast.AssignStmt:
+			lhs, rhs = x.Lhs, x.Rhs
+		case *ast.ValueSpec:
+			for _, nm := range x.Names {
+				lhs = append(lhs, nm)
+			}
+			rhs = x.Values
+		default:
+			return true
+		}
+		if len(lhs) != len(rhs) {
+			return true
+		}
+		for i, rh := range rhs {
+			call, ok := ast.Unparen(rh).(*ast.CallExpr)
+			if !ok || astx.Builtin(info, call) != "make" || len(call.Args) != 2 {
+				continue
+			}
+			st, ok := info.TypeOf(call).Underlying().(*types.Slice)
+			if !ok || (only != nil && !only(st)) {
+				continue
+			}
+			if v, isConst := astx.ConstInt(info, call.Args[1]); isConst && v == 0 {
+				continue
+			}
+			id, ok := lhs[i].(*ast.Ident)
+			if !ok || id.Name == "_" {
+				continue
+			}
+			obj := astx.Obj(info, id)
+			if obj == nil {
+				continue
+			}
+			n++
+			appended, indexed := false, false
+			ast.Inspect(fi.Body(), func(k ast.Node) bool {
+				switch y := k.(type) {
+				case *ast.AssignStmt:
+					for j, l := range y.Lhs {
+						if ie, ok := ast.Unparen(l).(*ast.IndexExpr); ok {
+							if xid, ok := ast.Unparen(ie.X).(*ast.Ident); ok && astx.Obj(info, xid) == obj {
+								indexed = true
+							}
+						}
+						if lid, ok := l.(*ast.Ident); ok && astx.Obj(info, lid) == obj && len(y.Lhs) == len(y.Rhs) {
+							if ac, ok := ast.Unparen(y.Rhs[j]).(*ast.CallExpr); ok && astx.Builtin(info, ac) == "append" && len(ac.Args) >= 1 {
+								if aid, ok := ast.Unparen(ac.Args[0]).(*ast.Ident); ok && astx.Obj(info, aid) == obj {
+									appended = true
+								}
+							}
+						}
+					}
+				case *ast.CallExpr:
+					// copy(x, …), io.ReadFull(r, x), binary.Read…: filled as a whole
+					for _, a := range y.Args {
+						if aid, ok := ast.Unparen(a).(*ast.Ident); ok && astx.Obj(info, aid) == obj && astx.Builtin(info, y) != "append" && astx.Builtin(info, y) != "len" && astx.Builtin(info, y) != "cap" {
+							indexed = true
+						}
+					}
+				case *ast.RangeStmt:
+					// for i := range x { x[i] = … } is covered by the index write
+				}
+				return true
+			})
+			r.Check(!appended || indexed, rule, c.attribName(fi), "slice "+id.Name+" created with a length is not appended to", c.P.Pos(call.Pos()), "filled by index, or created empty",
+				"make([]T, n) followed by append leaves n zero values in front of the data: "+detail)
+		}
+		return true
+	})
+	return n
+}
